@@ -38,6 +38,8 @@ MANIFEST = dict(
           "the electron equation of a non-default redox couple is taken from the engine's pe_x table."),
 )
 
+STALE_KEY = "stale-molalities-after-revise-guesses"
+STALE_REPLAY = "SOLUTION 1\n temp 5\n" + gens.TAIL
 QUICK_DBS = ["phreeqc.dat", "wateq4f.dat", "minteq.v4.dat"]
 PITZER_SIT = {"pitzer.dat", "sit.dat", "frezchem.dat", "ColdChem.dat", "Concrete_PZ.dat"}
 TOL_LOG = 1e-9
@@ -50,6 +52,37 @@ def unhexd(h):
 
 def hexd(x):
     return struct.pack(">d", float(x)).hex()
+
+
+# ------------------------------------------------------------------------------------------ model driver
+def snapshot_pmodel(ctx):
+    """private copy of the pmodel executable (other checks relink it concurrently); taken under the lake lock"""
+    import os
+    import shutil
+    dst = vlib.BUILD / f"pmodel_c01_{os.getpid()}"
+    for _ in range(60):
+        try:
+            with vlib.Lock("lake"):
+                shutil.copy2(ctx.pmodel_path(), dst)
+            ctx._pm = dst
+            return dst
+        except OSError:
+            time.sleep(3)
+    raise RuntimeError("pmodel executable not available")
+
+
+def pmodel(ctx, text, timeout=1800):
+    exe = getattr(ctx, "_pm", None) or ctx.pmodel_path()
+    r = vlib.sh([str(exe), "speciate"], input=text, timeout=timeout)
+    if r.returncode:
+        raise RuntimeError(f"pmodel speciate failed: {r.stderr[-2000:]}")
+    return r.stdout.splitlines()
+
+
+def drop_snapshot(ctx):
+    pm = getattr(ctx, "_pm", None)
+    if pm is not None and Path(pm).exists():
+        Path(pm).unlink()
 
 
 # ------------------------------------------------------------------------------------------ harness output
@@ -110,6 +143,8 @@ def parse_harness(out):
             elif t == "v":
                 dump["verdict"] = int(w[1])
                 dump["resid2"] = [unhexd(x) for x in w[2:]]
+            elif t == "l2":
+                dump["lm2"] = [unhexd(x) for x in w[1:]]
             elif t == "r":
                 dump["r"][w[1]] = [unhexd(x) for x in w[2:8]]
             elif t == "rt":
@@ -149,7 +184,7 @@ def case_lines(d, cid):
     L.append("g " + " ".join(hexd(d[k]) for k in ("tk", "patm", "mu", "W", "tol", "min_total")) +
              f" {d['water_switch']} {d['ph_is_cb']}")
     for m in d["m"]:
-        if m["in"] == 1:
+        if m["in"] == 1 and m["elt"] != "Alkalinity":      # the Alkalinity entry is not the species' own master
             L.append(f"use {m['s']}")
     seen = set()
     for m in d["m"]:
@@ -196,6 +231,13 @@ def parse_model(lines):
                 body = [(w[3 + 2 * i], unhexd(w[4 + 2 * i])) for i in range(n)]
                 k = [unhexd(x) for x in w[4 + 2 * n:]]
                 cur["rx"][w[1]] = (body, k)
+        elif w[0] == "pex":
+            if len(w) == 3:
+                cur.setdefault("pex", {})[w[1]] = w[2]
+            else:
+                n = int(w[2])
+                cur.setdefault("pex", {})[w[1]] = ([(w[3 + 2 * i], unhexd(w[4 + 2 * i])) for i in range(n)],
+                                                   [unhexd(x) for x in w[4 + 2 * n:]])
         elif w[0] == "lk":
             cur["lk"][w[1]] = (unhexd(w[2]), unhexd(w[3]))
         elif w[0] == "lm":
@@ -232,8 +274,21 @@ def judge(d, mc, stats):
     W = d["W"]
     one_atm = d["patm"] <= 1.0
     alt_pe = any(m["in"] == 2 and m["pe"].lower() != "pe" for m in d["m"]) or d.get("default_pe", "pe").lower() != "pe"
-    in_use = {m["s"] for m in d["m"] if m["in"] == 1}
+    in_use = {m["s"] for m in d["m"] if m["in"] == 1 and m["elt"] != "Alkalinity"}
     smap = {s["name"]: s for s in d["s"]}
+    # molalities() re-applied by the harness to the accepted state: lm2. "stale" = the stored lm is not what the
+    # assignment gives for the final activities and activity coefficients
+    lm2 = d.get("lm2", [])
+    fresh = {}
+    aqs = [s for s in d["s"] if not (s["type"] == 3)]
+    for s_, v in zip(aqs, lm2):
+        fresh[s_["name"]] = v
+    stale = any(s_["type"] <= 1 and abs(fresh.get(s_["name"], s_["lm"]) - s_["lm"]) > 1e-11 for s_ in aqs)
+    switched = any(m["in"] == 2 and m["m0"] != m["prim"] for m in d["m"])
+    excused = stale and (d["iterations"] <= 0 or switched)
+    if stale:
+        stats["stale_states"] += 1
+    found = []
     if mc.get("bad"):
         tie.append(("driver", "bad-line", mc["bad"][:2]))
     for m in d["m"]:
@@ -243,6 +298,27 @@ def judge(d, mc, stats):
                 stats["rewritten_relative_to_switched_basis"] += 1
     if alt_pe:
         stats["states_with_redox_couple"] += 1
+    for name, (toks, k) in d["pex"].items():
+        if name.lower() == "pe":
+            continue
+        mp = mc.get("pex", {}).get(name)
+        # the engine falls back to pe when a couple cannot be written ("Analytical data missing"): then e- = e-
+        code = {}
+        for nm, c in toks[1:]:
+            code[nm] = code.get(nm, 0.0) + c
+        if list(code) == ["e-"]:
+            continue
+        stats["couples"] += 1
+        if mp is None or isinstance(mp, str):
+            tie.append(("couple", name, f"model could not derive the electron equation: {mp}"))
+            continue
+        mod = {}
+        for nm, c in mp[0]:
+            mod[nm] = mod.get(nm, 0.0) + c
+        if set(code) != set(mod) or any(abs(code[x] - mod[x]) > 1e-9 * max(1, abs(code[x])) for x in code):
+            tie.append(("couple", name, f"electron equation: engine {code}, model {mod}"))
+        elif any(abs(a - b) > 1e-11 * max(abs(a), abs(b), 1e-3) * 4 for a, b in zip(k[:8], mp[1][:8])):
+            tie.append(("couple", name, f"log K vector: engine {k[:8]}, model {mp[1][:8]}"))
     for s in d["s"]:
         n = s["name"]
         if s["type"] > 1:          # H2O, e-: activities are unknowns, no molality assignment
@@ -285,8 +361,8 @@ def judge(d, mc, stats):
                 if rk is not None and abs(rk - lkdb) > 1e-12 * (1 + abs(lkdb)) * 100 + 1e-12:
                     (orc if abs(rk - lkdb) > TOL_LOG else tie).append(("lk_species", n, f"LK_SPECIES {rk!r}, database text {lkdb!r}"))
                 lm = mc["lm"][n]
-                if abs(lm - s["lm"]) > TOL_LOG:
-                    tie.append(("lm", n, f"lm: engine {s['lm']!r}, model {lm!r}"))
+                if abs(lm - fresh.get(n, s["lm"])) > TOL_LOG:
+                    tie.append(("lm", n, f"lm: engine molalities() gives {fresh.get(n)!r} (stored {s['lm']!r}), model {lm!r}"))
                 stats["lk"] += 1
                 if any(k[i] != 0.0 for i in range(2, 8)):
                     stats["lk_analytic"] += 1
@@ -303,8 +379,10 @@ def judge(d, mc, stats):
                 if not abs(res) <= TOL_LOG:
                     if alt_pe:
                         stats["res_altpe_skipped"] += 1
+                    elif excused:
+                        found.append(("mass-action", n, f"database mass-action residual {res!r} log units; stored lm {s['lm']!r}, molalities() on the accepted state gives {fresh.get(n)!r} (iterations={d['iterations']}, basis switched={switched})"))
                     else:
-                        orc.append(("mass-action", n, f"database mass-action residual {res!r} log units (T={d['tk']} K, la={la!r})"))
+                        orc.append(("mass-action", n, f"database mass-action residual {res!r} log units (T={d['tk']} K, la={la!r}, iterations={d['iterations']})"))
         # (e) read-outs of the species
         r = d["r"].get(n)
         if r is not None:
@@ -371,7 +449,9 @@ def judge(d, mc, stats):
         if -300 < si < 300 and not close(sr, 10 ** si, 1e-9):
             orc.append(("readout", n, f"SR {sr!r} != 10^SI {10 ** si!r}"))
         if one_atm and not alt_pe:
-            if abs(si - si_m) > TOL_LOG * ncoef * 4:
+            if abs(si - si_m) > TOL_LOG * ncoef * 4 and excused:
+                found.append(("SI", n, f"SI engine {si!r}, from database reaction and reported (stale) activities {si_m!r}"))
+            elif abs(si - si_m) > TOL_LOG * ncoef * 4:
                 orc.append(("SI", n, f"SI engine {si!r}, from database reaction and reported activities {si_m!r}"))
             rkp = d["rkp"].get(n)
             if rkp is not None and abs(rkp - lk_m) > TOL_LOG:
@@ -387,6 +467,9 @@ def judge(d, mc, stats):
         if not g[0] or not g[1]:
             # the calculation completed without error although the tests the gate theorem speaks about do not hold
             (orc if not conv_code else tie).append(("gate", "completed-unconverged", f"model converged={g[0]} checkResiduals={g[1]}, engine verdict {d.get('verdict')}"))
+    if found:
+        stats["stale_states_excused"] += 1
+        d["finding"] = found
     return orc, tie
 
 
@@ -394,7 +477,7 @@ def new_stats():
     return {k: 0 for k in ("rx", "rx_nontrivial", "lk", "lk_analytic", "lk_vanthoff", "res", "res_missing", "res_altpe_skipped",
                            "readouts", "sums", "si", "si_skipped", "gate", "dumps", "runs", "runs_error", "runs_nodump",
                            "above_1atm", "rewritten_valence_masters", "rewritten_relative_to_switched_basis",
-                           "states_with_redox_couple")} | {"res_max": 0.0}
+                           "states_with_redox_couple", "stale_states", "stale_states_excused", "couples")} | {"res_max": 0.0}
 
 
 # ------------------------------------------------------------------------------------------ database tie
@@ -509,7 +592,7 @@ def kcalc_direct(ctx, exe, n):
         mlines.append("kcalc " + args)
     r = vlib.sh([str(exe)], input="\n".join(ops) + "\n", timeout=120)
     impl = [unhexd(l.split()[1]) for l in r.stdout.splitlines() if l.startswith("kcalc ")]
-    model = [unhexd(l.split()[1]) for l in ctx.pmodel("speciate", "\n".join(mlines) + "\n") if l.startswith("kcalc ")]
+    model = [unhexd(l.split()[1]) for l in pmodel(ctx, "\n".join(mlines) + "\n") if l.startswith("kcalc ")]
     bad = []
     if len(impl) != n or len(model) != n:
         return [("count", len(impl), len(model))], 0
@@ -544,17 +627,17 @@ def check_runs(ctx, exe, dbname, db, dblines, texts, stats):
             index.append((i, d, cid))
     if not index:
         return findings, runs
-    out = ctx.pmodel("speciate", "\n".join(mlines) + "\n", timeout=1800)
+    out = pmodel(ctx, "\n".join(mlines) + "\n")
     cases = parse_model(out)
     for i, d, cid in index:
         mc = cases.get(cid)
         stats["dumps"] += 1
         if mc is None or "gate" not in mc:
-            findings.append((i, d["idx"], [], [("driver", "no-output", cid)]))
+            findings.append((i, d["idx"], [], [("driver", "no-output", cid)], []))
             continue
         orc, tie = judge(d, mc, stats)
-        if orc or tie:
-            findings.append((i, d["idx"], orc, tie))
+        if orc or tie or d.get("finding"):
+            findings.append((i, d["idx"], orc, tie, d.get("finding") or []))
     return findings, runs
 
 
@@ -602,8 +685,14 @@ def handle_findings(ctx, exe, dbname, db, dblines, results):
                               {"db": dbname, "inputs": tx[f[1]:f[1] + 1], "kind": "crash"})
                 n_or += 1
                 continue
-            i, di, orc, tie = f
+            i, di, orc, tie, found = f
             text = tx[i]
+            if found:
+                ctx.finding(STALE_KEY,
+                            "model() accepted a state whose molalities were computed before the last gammas() call (end of "
+                            "revise_guesses): " + f"{dbname}: {found[0][1]}: {found[0][2]}",
+                            {"db": dbname, "input": STALE_REPLAY if dbname == "phreeqc.dat" else text, "dump": di,
+                             "failures": [list(map(str, x)) for x in found[:6]]})
             if orc:
                 n_or += 1
                 if len(ctx.violations) < 5:
@@ -628,6 +717,7 @@ def shrink_input(ctx, exe, dbname, db, dblines, text, kind):
         except Exception:
             return False
         return any(f[0] != "crash" and any(o[0] == kind for o in f[2]) for f in findings)
+
 
     try:
         if not fails(lines):
@@ -664,6 +754,14 @@ def run(ctx):
     ok = ctx.prove(["PhreeqcVerif.Properties.C01"])
     ctx.build_lib()
     exe = ctx.build_harness("ph_speciate")
+    snapshot_pmodel(ctx)
+    try:
+        _run(ctx, ok, exe)
+    finally:
+        drop_snapshot(ctx)
+
+
+def _run(ctx, ok, exe):
     ctx.tie_breaks = []
     stats = new_stats()
     cov = {k: {} for k in ("kinds", "features", "n_elements", "temp_bins", "ph_bins", "units", "log_molal_bins")}
@@ -732,6 +830,14 @@ def replay(ctx, data):
     ctx.build_lib()
     exe = ctx.build_harness("ph_speciate")
     ctx.prove(["PhreeqcVerif.Properties.C01"])
+    snapshot_pmodel(ctx)
+    try:
+        _replay(ctx, data, exe)
+    finally:
+        drop_snapshot(ctx)
+
+
+def _replay(ctx, data, exe):
     ctx.tie_breaks = []
     kind = data.get("kind")
     if kind == "kcalc":
